@@ -79,6 +79,17 @@ def _push_not(e, neg):
             else:
                 vals.append(pv)
         return ast.BoolOp(op=op, values=vals)
+    if isinstance(e, ast.Compare) and len(e.ops) == 1 and isinstance(e.ops[0], (ast.Eq, ast.NotEq)):
+        # X[k:k+1] == b'c'  is  len(X) > k and X[k] == c   (a one-byte slice equals a one-byte constant)
+        for a_, b_ in ((e.left, e.comparators[0]), (e.comparators[0], e.left)):
+            if isinstance(a_, ast.Subscript) and isinstance(a_.slice, ast.Slice) and a_.slice.step is None and a_.slice.lower is not None and a_.slice.upper is not None \
+                    and isinstance(b_, ast.Constant) and isinstance(b_.value, bytes) and len(b_.value) == 1:
+                lo, hi = _ca_int(a_.slice.lower), _ca_int(a_.slice.upper)
+                if lo is not None and hi is not None and lo >= 0 and hi == lo + 1:
+                    conj = ast.BoolOp(op=ast.And(), values=[
+                        ast.Compare(left=ast.Call(func=ast.Name(id='len', ctx=ast.Load()), args=[a_.value], keywords=[]), ops=[ast.Gt()], comparators=[ast.Constant(value=lo)]),
+                        ast.Compare(left=ast.Subscript(value=a_.value, slice=ast.Constant(value=lo), ctx=ast.Load()), ops=[ast.Eq()], comparators=[ast.Constant(value=b_.value[0])])])
+                    return _push_not(conj, neg != isinstance(e.ops[0], ast.NotEq))
     if isinstance(e, ast.Compare):
         if len(e.ops) == 1:
             op = e.ops[0]
